@@ -40,7 +40,7 @@ pub trait Ctap2Api: sealed::Sealed {
 
     /// Request to assert a user's existing credential that might exist in the authenticator.
     async fn get_assertion(
-        &self,
+        &mut self,
         request: get_assertion::Request,
     ) -> Result<get_assertion::Response, StatusCode>;
 }
@@ -49,7 +49,7 @@ pub trait Ctap2Api: sealed::Sealed {
 impl<S, U> Ctap2Api for Authenticator<S, U>
 where
     S: CredentialStore + Sync + Send,
-    U: UserValidationMethod + Sync + Send,
+    U: UserValidationMethod<PasskeyItem = <S as CredentialStore>::PasskeyItem> + Sync + Send,
 {
     async fn get_info(&self) -> get_info::Response {
         self.get_info().await
@@ -63,9 +63,11 @@ where
     }
 
     async fn get_assertion(
-        &self,
+        &mut self,
         request: get_assertion::Request,
     ) -> Result<get_assertion::Response, StatusCode> {
-        self.get_assertion(request).await
+        // The inherent method needs `&mut self`; with a `&self` receiver this call resolved to the
+        // trait method itself and recursed without end.
+        Authenticator::get_assertion(self, request).await
     }
 }
